@@ -136,6 +136,15 @@ def pkt (ws : List String) : String :=
     | .ok p => "ok " ++ dumpPacket p ++ " | " ++ showBytes (enc p none)
     | .err _ => "err"
     | .panic => "panic"
+  | "apitrace" :: rest =>
+    let ops := ((" ".intercalate rest).splitOn ";").filterMap parseBOp
+    match Builder.build ops with
+    | .ok p =>
+      " ".intercalate ((encTrace p none).map (fun e =>
+        match e with
+        | .reserve _ len add => s!"R{len}+{add}"
+        | .copy _ off n => s!"C{off}+{n}"))
+    | _ => "panic"
   | "api" :: rest =>
     let ops := ((" ".intercalate rest).splitOn ";").filterMap parseBOp
     match Builder.build ops with
